@@ -39,7 +39,10 @@ def judge_contours(ctx, vc, cases, label, base_id=0):
                                      warned=bool(obs["warned"]), isarray=rec.get("isarray"),
                                      deltas=obs.get("deltas_used"))))
     if not recs:
-        raise Machinery("no contour could be observed")
+        if base_id == 0 and not ctx.violations:
+            raise Machinery("no contour could be observed")
+        ctx.log(f"{label}: nothing to judge ({empty} empty selections skipped)")
+        return []
     failing = ctx.validate("Trace_C15", "Trace_C15.cfg", recs, xss=XSS, chunk=ctx.pick(60, 40))
     multi = 0
     for case, rec, info in kept:
@@ -202,8 +205,10 @@ def run(ctx):
     srecs = judge_sorter(ctx, vc, scases, "line sorter")
     self_test(ctx)
     multi = [k for k in kept if k[2]["nsets"] > 1 and k[2]["n"] <= 3000]
-    small = min((k for k in kept if not k[1]["exc"]), key=lambda k: k[2]["n"])
-    ctx.sample({"case": small[0], "record": small[1]})
+    ok = [k for k in kept if not k[1]["exc"]]
+    if ok:
+        small = min(ok, key=lambda k: k[2]["n"])
+        ctx.sample({"case": small[0], "record": small[1]})
     if multi:
         ctx.sample({"case": multi[0][0], "observed": multi[0][2]})
     ctx.sample({"case": scases[3], "record": srecs[3]})
